@@ -75,7 +75,7 @@ def conclude(spec, cfgs, tot, tier, seed, t0):
         print("VIOLATION property=%s replay=%s" % (pid, path))
         print("  clause=%s config=%s detail=%s" % (clause, json.load(open(path))["config"].get("name"), json.dumps(harness._js(v.detail))[:400]))
     # ---- evidence -----------------------------------------------------------------------------------
-    exhaustive = not tot["capped"]
+    exhaustive = not tot["capped"] and not tot.get("depth_capped") and not tot.get("stopped_after_violation")
     cov = {
         "states": len(tot["states"]), "transitions": len(tot["transitions"]),
         "traces_validated_against_impl": tot["validated"],
@@ -97,6 +97,8 @@ def conclude(spec, cfgs, tot, tier, seed, t0):
         "replay_determinism_checked": tot["replayed"],
         "unowned_randomness_executions": tot["unowned"],
         "capped_configurations": tot["capped"],
+        "executions_beyond_branching_depth": tot.get("depth_capped", 0),
+        "configurations_stopped_after_violation": tot.get("stopped_after_violation", []),
         "monitor_counters": tot["counters"],
         "known_findings_hit": {k: v["n"] for k, v in known.items()},
         "workers": explore.NWORKERS,
